@@ -102,6 +102,58 @@ fn real_main(cmd: String, args: Vec<String>) -> i32 {
                 }
             }
         }
+        "threads" => {
+            // cvh threads --n N: C13, OS threads sharing one statically typed parser through Arc<dyn Parser + Send + Sync>:
+            // every thread must get, for every input of the pool, the result sequential use gives
+            let n: usize = arg(&args, "--n").and_then(|x| x.parse().ok()).unwrap_or(4);
+            let rounds: usize = arg(&args, "--rounds").and_then(|x| x.parse().ok()).unwrap_or(3);
+            let mut pool: Vec<(String, Vec<char>)> = vec![];
+            let alphabet = ['a', 'b', '\u{e9}'];
+            let mut last: Vec<Vec<char>> = vec![vec![]];
+            pool.push((String::new(), vec![]));
+            for _ in 0..3 {
+                let mut next = vec![];
+                for s in &last {
+                    for c in alphabet {
+                        let mut t = s.clone();
+                        t.push(c);
+                        next.push(t);
+                    }
+                }
+                for t in &next {
+                    pool.push((t.iter().collect(), t.clone()));
+                }
+                last = next;
+            }
+            let mut bad = vec![];
+            let mut parses = 0usize;
+            for &idx in stat::SYNC {
+                let seq: Vec<(bool, String, String)> = pool
+                    .iter()
+                    .map(|(text, toks)| {
+                        let o = stat::run_static(idx, &text[..], toks, "E", false).unwrap();
+                        (o.ok, o.out.to_string(), format!("{:?}", o.errs))
+                    })
+                    .collect();
+                for threads in [2usize, n] {
+                    let res = stat::run_static_threads(idx, &pool, threads, rounds).unwrap();
+                    parses += threads * rounds * pool.len();
+                    for (t, r) in res.iter().enumerate() {
+                        for (j, key) in r.iter().enumerate() {
+                            if *key != seq[j] && bad.len() < 10 {
+                                bad.push(json!({"grammar": stat::ASTS[idx], "input": pool[j].0, "threads": threads, "thread": t, "sequential": format!("{:?}", seq[j]), "concurrent": format!("{key:?}")}));
+                            }
+                        }
+                    }
+                }
+            }
+            println!("{}", json!({"parsers": stat::SYNC.len(), "pool": pool.len(), "parses": parses, "threads": n, "disagreements": bad}));
+            if bad.is_empty() {
+                0
+            } else {
+                1
+            }
+        }
         "regex" => {
             let len: usize = arg(&args, "--len").and_then(|x| x.parse().ok()).unwrap_or(3);
             let j = rx::run(len);
